@@ -2,7 +2,9 @@
 import gen, streams
 from common import *
 
-RULE = ('inputs: corpus, g2 fragment shuffler, g3 raw code points of all planes incl. surrogates/NUL, g4 pump strings per rule; '
+RULE = ('inputs: corpus, g2 fragment shuffler, g3 raw code points of all planes incl. surrogates/NUL, g4 pump strings per rule, '
+        'long texts dense in multi-character lexemes (any block-wise scan cuts one), single lexemes of 70k/1.1M characters of every region kind, '
+        'near-duplicate texts tokenized back to back (same length/ends, different middle: carried-over state); '
         'non-trivial = distinct input with at least two tokens or an Error token')
 ASSUMPTIONS = ['CPython re matches as the model derivs (sampled by S-RE on every rule x every position of the sampled inputs)',
                'bytes decoding is C19, not here']
@@ -58,6 +60,64 @@ def inputs_for(ctx):
     return ins
 
 
+# --- inputs beyond what the model driver can follow (oracle only): size, and history between calls -------------------------------
+def long_inputs(ctx):
+    """texts of ~70k characters (thorough: also ~1.1M) that consist almost entirely of multi-character lexemes of one kind, with unit lengths
+    coprime to every power of two: wherever an implementation cuts the text (block-wise scanning, line-wise scanning, a size cap), it cuts
+    inside a lexeme, and an unterminated quote/comment opener shows as an Error token where a rule matches, or as lost text"""
+    units = ["'xxxxxxxx' ", "/* c c c */ ", '"qq qq qq" ', "`b b b b b` ", "$t$ d d d $t$ ", "-- cccccc\n", "abcdefghijk ", "1234567.25e10 ",
+             "'it''s so' ", "order  by ", "\u00e9\u00df\u0131\u017f\u212a\u0130 "]
+    sizes = [70001] + ([1100003] if not ctx.quick() else [])
+    out = []
+    for size in sizes:
+        for u in (units if size < 100000 else units[:3]):
+            out.append((u * (size // len(u) + 1))[:size])
+    # one huge lexeme of every region kind (a cap on token size loses text)
+    big = 70001
+    for mk in (lambda n: "'" + 'x' * n + "'", lambda n: '/*' + 'c' * n + '*/', lambda n: '"' + 'q' * n + '"', lambda n: '`' + 'b' * n + '`',
+               lambda n: '$$' + 'd' * n + '$$', lambda n: '--' + 'c' * n + '\n', lambda n: 'a' * n, lambda n: '1' * n, lambda n: '<' * n,
+               lambda n: '\u00b4' + 'n' * n + '\u00b4', lambda n: '[' + 's' * n + ']', lambda n: '/*+' + 'h' * n + '*/'):
+        out.append('select ' + mk(big) + ' from t')
+        if not ctx.quick():
+            out.append(mk(1100003))
+    return out
+
+
+def history_pairs(ctx, pool):
+    """(before, text): `text` has the same length, the same first and last 2000 characters (or all but the middle) as `before` but differs in
+    the middle, or the same ends and a different length; tokenizing `text` right after `before` must not be influenced by the earlier call"""
+    rng = ctx.rng
+    bases = [s for s in pool if len(s) >= 12][: ctx.n(150, 1500)]
+    filler = 'select a, b from t where x = 1; '
+    for n in (3, 40, 200):
+        bases.append(filler * n)
+        bases.append("insert into t values ('a;b', 2); " * n)
+    pairs = []
+    for s in bases:
+        mid = len(s) // 2
+        for repl in (';', "'", 'q', ' ', '/*'):
+            if s[mid:mid + len(repl)] != repl:
+                pairs.append((s, s[:mid] + repl + s[mid + len(repl):]))
+                break
+        pairs.append((s, s[:mid] + ' zz ' + s[mid:]))
+    # the same text twice must of course give the same result; and a short text after a long one
+    pairs += [(filler * 50, filler * 50), (filler * 50, 'x'), ('x', '')]
+    return pairs
+
+
+def oracle_after(ctx, before, s):
+    from sqlparse import lexer
+    try:
+        list(lexer.tokenize(before))
+    except Exception:
+        pass
+    n0 = len(ctx.failures)
+    oracle(ctx, s)
+    for f in ctx.failures[n0:]:
+        f['before'] = before
+        f['what'] += ' (when tokenized right after the text in extra.before)'
+
+
 def run(ctx):
     ins = inputs_for(ctx)
     impl_lines = [oracle(ctx, s) for s in ins]
@@ -68,6 +128,12 @@ def run(ctx):
     else:
         ctx.notes.append('model driver unavailable: correspondence streams skipped')
     ctx.samples += [short(s, 60) for s in ins[:3]]
+    for s in long_inputs(ctx):
+        oracle(ctx, s)
+        ctx.count('long_input')
+    for before, s in history_pairs(ctx, ins):
+        oracle_after(ctx, before, s)
+        ctx.count('history_pair')
     # when an obligation broke, aim the search at what changed: pumps and single characters per rule
     if ctx.broken:
         for cp in list(range(0, 0x300)) + [0x2028, 0xd800, 0x10ffff]:
@@ -80,5 +146,9 @@ def run(ctx):
 
 def replay(ctx, payload):
     n0 = len(ctx.failures)
-    oracle(ctx, payload['input'])
+    before = (payload.get('extra') or {}).get('before')
+    if before is not None:
+        oracle_after(ctx, before, payload['input'])
+    else:
+        oracle(ctx, payload['input'])
     return len(ctx.failures) > n0
